@@ -59,11 +59,14 @@ void __lsan_enable(void);
 /* ------------------------------------------------------------------ clock */
 static __thread int tl_dummy;
 static volatile time_t drv_now = 1700000000;
+static int drv_tick;	/* Clock op with "tick":1 - every reading of the clock is one second later than the previous one */
 time_t time(time_t *t)
 {
+	time_t r = drv_now;
+	if (drv_tick) drv_now += 1;
 	if (t)
-		*t = drv_now;
-	return drv_now;
+		*t = r;
+	return r;
 }
 
 /* ---------------------------------------------------------------- globals */
@@ -199,6 +202,19 @@ static int64_t unwide(json_t *w)
 }
 
 /* ----------------------------------------------------------------- events */
+/* the driver's own serialisations live in libc memory whatever allocator jansson has been given (they are
+ * realloc'ed and free'd here as ordinary strings) */
+static char *drv_json_dumps(const json_t *j, size_t flags)
+{
+	json_malloc_t m; json_free_t f;
+	char *s = json_dumps(j, flags), *c;
+	if (!s) return NULL;
+	c = strdup(s);
+	json_get_alloc_funcs(&m, &f);
+	f(s);
+	return c;
+}
+#define json_dumps drv_json_dumps
 static int post_fop;	/* C17: > 0 while the operations AFTER the one in which the fault fired (script index post_fop) are run */
 static void emit(json_t *ev)
 {
@@ -1090,19 +1106,24 @@ static int track_alloc;
 /* addresses are kept complemented, so that LeakSanitizer does not take the table for references to the blocks */
 static uintptr_t trk_tab[TRK_N];
 static unsigned trk_slot(void *p) { return (unsigned)(((uintptr_t)p >> 4) * 2654435761u) & (TRK_N - 1); }
+static long trk_live;	/* blocks handed out and not yet returned to drv_free */
 static void trk_add(void *p)
 {
 	unsigned i = trk_slot(p);
 	uintptr_t v = ~(uintptr_t)p;
 	for (unsigned n = 0; n < TRK_N; n++, i = (i + 1) & (TRK_N - 1))
-		if (!trk_tab[i] || trk_tab[i] == 1 || trk_tab[i] == v) { trk_tab[i] = v; return; }
+		if (!trk_tab[i] || trk_tab[i] == 1 || trk_tab[i] == v) {
+			if (trk_tab[i] != v) trk_live++;	/* (an address still in the table was released behind the allocator's back) */
+			trk_tab[i] = v;
+			return;
+		}
 }
 static int trk_del(void *p)
 {
 	unsigned i = trk_slot(p);
 	uintptr_t v = ~(uintptr_t)p;
 	for (unsigned n = 0; n < TRK_N && trk_tab[i]; n++, i = (i + 1) & (TRK_N - 1))
-		if (trk_tab[i] == v) { trk_tab[i] = 1; return 1; }
+		if (trk_tab[i] == v) { trk_tab[i] = 1; trk_live--; return 1; }
 	return 0;
 }
 /* what a fresh block holds is nobody's business: under --track-alloc it changes from block to block (blank, NUL,
@@ -1702,6 +1723,15 @@ static char *forge_token(json_t *td, json_t *info)
 	else if (!strcmp(shape, "4segmidempty")) sprintf(tok, "%s.%s..%s", hseg, pseg, sigseg);
 	else if (!strcmp(shape, "5segmid")) sprintf(tok, "%s.%s.x.y.%s", hseg, pseg, sigseg);
 	else if (!strcmp(shape, "dupsig")) sprintf(tok, "%s.%s.%s.%s", hseg, pseg, sigseg, sigseg);
+	/* the genuine token with white space after (or before) it: a line read from a file, not a token */
+	else if (!strcmp(shape, "tailnl")) sprintf(tok, "%s.%s.%s\n", hseg, pseg, sigseg);
+	else if (!strcmp(shape, "tailcrlf")) sprintf(tok, "%s.%s.%s\r\n", hseg, pseg, sigseg);
+	else if (!strcmp(shape, "tailcr")) sprintf(tok, "%s.%s.%s\r", hseg, pseg, sigseg);
+	else if (!strcmp(shape, "tailnlx")) sprintf(tok, "%s.%s.%s\nAAAA", hseg, pseg, sigseg);
+	else if (!strcmp(shape, "tailsp")) sprintf(tok, "%s.%s.%s ", hseg, pseg, sigseg);
+	else if (!strcmp(shape, "tailtab")) sprintf(tok, "%s.%s.%s\t", hseg, pseg, sigseg);
+	else if (!strcmp(shape, "leadnl")) sprintf(tok, "\n%s.%s.%s", hseg, pseg, sigseg);
+	else if (!strcmp(shape, "leadsp")) sprintf(tok, " %s.%s.%s", hseg, pseg, sigseg);
 	else die("shape %s", shape);
 	free(hseg); free(pseg); free(sigseg); free(text);
 	return tok;
@@ -2277,6 +2307,7 @@ static void run_op(json_t *op)
 
 	if (!strcmp(name, "Clock")) {
 		drv_now = (time_t)unwide(json_object_get(op, "now"));
+		drv_tick = (int)jint(op, "tick", 0);
 	} else if (!strcmp(name, "Ops")) {
 		const char *n = jstr(op, "name", "~");
 		int ret = jwt_set_crypto_ops(n);
@@ -2533,6 +2564,7 @@ static void run_case(json_t *c, long idx)
 	const char *id = first && json_is_string(first) ? json_string_value(first) : "?";
 	json_t *ev;
 	int fd0 = low_fd();
+	long trk0 = trk_live, trk1;
 	cur_case = id; cur_op = -1;
 	case_rng = seed * 0x9e3779b97f4a7c15ULL ^ fnv(id);
 	drv_now = 1700000000;
@@ -2540,6 +2572,7 @@ static void run_case(json_t *c, long idx)
 	jwt_set_crypto_ops("openssl");
 	stale_turn = 0;
 	fill_turn = 0;
+	drv_tick = 0;
 	ev = json_pack("{s:s,s:s,s:I}", "e", "Case", "id", id, "n", (json_int_t)idx);
 	emit(ev); json_decref(ev);
 	alarm(call_timeout);
@@ -2550,11 +2583,14 @@ static void run_case(json_t *c, long idx)
 	}
 	cur_op = 9999;
 	free_all_objects();	/* still under the watchdog: releasing the objects is library code too */
+	trk1 = trk_live;
 	alarm(0);
 	/* restore process-wide state */
 	jwt_set_crypto_ops("openssl");
 	ev = json_pack("{s:s}", "e", "EndCase");
 	json_object_set_new(ev, "fd", json_integer(low_fd() - fd0));
+	/* blocks the library obtained from the application's allocator during the case and never gave back to it */
+	if (track_alloc) json_object_set_new(ev, "trk", json_integer((json_int_t)(trk1 - trk0)));
 #ifdef DRV_ASAN
 	if (leak_every && (idx % leak_every) == leak_every - 1)
 		json_object_set_new(ev, "leak", json_integer(__lsan_do_recoverable_leak_check() ? 1 : 0));
@@ -2589,6 +2625,7 @@ static void run_case_fault(json_t *c, long idx)
 	jwt_set_alloc(drv_malloc, drv_free);
 	stale_turn = 0;
 	fill_turn = 0;
+	drv_tick = 0;
 	ev = json_pack("{s:s,s:s,s:I}", "e", "Case", "id", id, "n", (json_int_t)idx);
 	emit(ev); json_decref(ev);
 	fault_mode = 1; alloc_fail_at = -1; alloc_count = 0; alloc_failed = 0;
